@@ -1,5 +1,205 @@
-import RSVerif.Basic
-/- C18: line-protocol driver (stub) -/
+import RSVerif.Model.Backlog
+/-
+Line protocol for C18 (see go/harness/c18.go for the same cases run on the real code).
+
+  roff  <blen> <size> <rpos> <wpos>      -> "<maxlen> <offset>"      (rpos ≤ wpos)
+  woff  <blen> <size> <wpos>             -> "<maxlen> <offset>"
+  align <size> <unit>                    -> "<n>"
+  sched <mem|file> <request> <op> …      -> one token per op (plus one per reader a write/close woke)
+
+A schedule is serialised: each op is applied through `Sys.step` (the function the theorems of
+Properties/C18 are about).  `Write` is the loop over `writeSome`; after every chunk each reader that was
+parked takes its next `readSomeAt` step (in id order) before the next chunk is written.
+
+Once the schedule has closed the backlog, the property only promises that reads/writes fail with SOME
+error and move no bytes.  What the pinned code answers beyond that (which error, `DataRange` = (0,0)
+without error, validity, zero-length calls) is printed after a `~`; ./check strips `~…` from every token
+before comparing, so it is kept as a diagnostic but is not part of the verdict.
+-/
 namespace RSVerif.Drive.C18
-def handle (_line : String) : String := "unimplemented"
+open RSVerif RSVerif.Backlog
+
+def errName : Option Err → String
+  | none => "ok"
+  | some .closed => "closed"
+  | some .invalidOffset => "invalid"
+  | some .eof => "eof"
+  | some (.custom c) => s!"custom{c}"
+
+def fnv (bs : Bytes) : UInt64 :=
+  bs.foldl (fun h b => (h ^^^ b.toUInt64) * 1099511628211) 14695981039346656037
+
+def hex64 (x : UInt64) : String := toHex (le64 x).reverse
+
+/-- bytes of a read: hex up to 16 bytes, else an FNV-1a digest -/
+def showBytes (bs : Bytes) : String :=
+  if bs.length ≤ 16 then hexOrDash bs else "#" ++ hex64 (fnv bs)
+
+/-- data of a generated write: byte i = (add + mul·i) mod 251 -/
+def pattern (len add mul : Nat) : Bytes :=
+  (List.range len).map fun i => UInt8.ofNat ((add + mul * i) % 251)
+
+def parkedIds (s : Sys) : List Nat :=
+  (List.range s.rds.length).filter fun i =>
+    match s.rds[i]? with
+    | some ⟨_, .parked _ _ _⟩ => true
+    | _ => false
+
+/-- error rendering: exact while open; after the close only "some error" is compared -/
+def showErr (closed : Bool) (err : Option Err) : String :=
+  if closed && err.isSome then "err~" ++ errName err else errName err
+
+def showDone (closed : Bool) (tag : String) (r k n : Nat) (bs : Bytes) (err : Option Err) : String :=
+  if closed && k = 0 then s!"{tag}{r}=~{n}:{showBytes bs}:{errName err}"
+  else s!"{tag}{r}={n}:{showBytes bs}:{showErr closed err}"
+
+/-- buffer length of the call thread r is in -/
+def bufLen (s : Sys) (r : Nat) : Nat :=
+  match s.rds[r]? with
+  | some ⟨_, .running k _ _⟩ => k
+  | some ⟨_, .parked k _ _⟩ => k
+  | _ => 0
+
+/-- the readers in `ids` (just woken) each take one `readSomeAt` step -/
+def stepWoken (closed : Bool) : Sys → List Nat → List String → Sys × List String
+  | s, [], acc => (s, acc)
+  | s, r :: rs, acc =>
+    let k := bufLen s r
+    match s.step (.step r) with
+    | (s', .done _ _ n bs err) => stepWoken closed s' rs (showDone closed "k" r k n bs err :: acc)
+    | (s', .parked _) => stepWoken closed s' rs (s!"z{r}" :: acc)
+    | (s', _) => stepWoken closed s' rs (s!"z{r}" :: acc)   -- still parked: it was not woken
+
+/-- `bl.Write(b)`, chunk by chunk; `acc` collects the wake tokens (reversed) -/
+def writeLoop (closed : Bool) : Nat → Sys → Bytes → Nat → List String → Sys × String × List String
+  | 0, s, _, _, acc => (s, "w=spin", acc)
+  | fuel + 1, s, bs, nn, acc =>
+    let parked := parkedIds s
+    match s.step (.writeSome bs) with
+    | (s1, .wrote n err) =>
+      match stepWoken closed s1 parked acc with
+      | (s2, acc2) =>
+        if err ≠ none then (s2, s!"w={nn + n}:{showErr closed err}", acc2)
+        else if (bs.drop n).length = 0 then (s2, s!"w={nn + n}:ok", acc2)
+        else writeLoop closed fuel s2 (bs.drop n) (nn + n) acc2
+    | (s1, _) => (s1, "w=?", acc)
+
+def doWrite (closed : Bool) (s : Sys) (bs : Bytes) : Sys × List String :=
+  match writeLoop closed (bs.length + 2) s bs 0 [] with
+  | (s', w, acc) =>
+    let w := if closed && bs.isEmpty then "w=~" ++ (w.drop 2).toString else w
+    (s', w :: acc.reverse)
+
+def doClose (s : Sys) (e : Option Err) : Sys × List String :=
+  let parked := parkedIds s
+  match s.step (.close e) with
+  | (s1, .closed err) =>
+    match stepWoken true s1 parked [] with
+    | (s2, acc) => (s2, s!"c=~{errName err}" :: acc.reverse)
+  | (s1, _) => (s1, ["c=?"])
+
+/-- start a `ReadAt` on thread r and let it take its first `readSomeAt` step -/
+def doRead (closed : Bool) (s : Sys) (tag : String) (r k : Nat) (start : Op) : Sys × List String :=
+  match s.step start with
+  | (s1, .began _) =>
+    match s1.step (.step r) with
+    | (s2, .done _ _ n bs err) => (s2, [showDone closed tag r k n bs err])
+    | (s2, .parked _) => (s2, [s!"{tag}{r}=park"])
+    | (s2, _) => (s2, [s!"{tag}{r}=?"])
+  | (s1, _) => (s1, ["x"])
+
+def tf (b : Bool) : String := if b then "T" else "F"
+
+/-- `closed` = the schedule has already closed the backlog (see the header about `~`) -/
+def doOp (closed : Bool) (s : Sys) (tok : String) : Sys × List String :=
+  let q := if closed then "~" else ""
+  match tok.splitOn ":" with
+  | ["n"] =>
+    match s.step .newReader with
+    | (s', .reader r err) => (s', [s!"n={q}{r}:{errName err}"])
+    | (s', _) => (s', ["n=?"])
+  | ["w", h] =>
+    match ofHex h with
+    | some bs => doWrite closed s bs
+    | none => (s, ["badop"])
+  | ["g", len, add, mul] =>
+    match len.toNat?, add.toNat?, mul.toNat? with
+    | some len, some add, some mul => doWrite closed s (pattern len add mul)
+    | _, _, _ => (s, ["badop"])
+  | ["r", r, k] =>
+    match r.toNat?, k.toNat? with
+    | some r, some k => doRead closed s "r" r k (.begin r k)
+    | _, _ => (s, ["badop"])
+  | ["a", r, k, o] =>
+    match r.toNat?, k.toNat?, o.toNat? with
+    | some r, some k, some o => doRead closed s "a" r k (.beginAt r k o)
+    | _, _, _ => (s, ["badop"])
+  | ["s", r, o] =>
+    match r.toNat?, o.toNat? with
+    | some r, some o =>
+      match s.step (.seekTo r o) with
+      | (s', .valid _ b) => (s', [s!"s{r}={q}{tf b}"])
+      | (s', _) => (s', ["x"])
+    | _, _ => (s, ["badop"])
+  | ["v", r] =>
+    match r.toNat? with
+    | some r =>
+      match s.step (.isValid r) with
+      | (s', .valid _ b) => (s', [s!"v{r}={q}{tf b}"])
+      | (s', _) => (s', ["x"])
+    | none => (s, ["badop"])
+  | ["o", r] =>
+    match r.toNat? with
+    | some r =>
+      match s.step (.offset r) with
+      | (s', .off _ o) => (s', [s!"o{r}={o}"])
+      | (s', _) => (s', ["x"])
+    | none => (s, ["badop"])
+  | ["d"] =>
+    match s.step .dataRange with
+    | (s', .range lo hi err) => (s', [s!"d={q}{lo}:{hi}:{errName err}"])
+    | (s', _) => (s', ["d=?"])
+  | ["c"] => doClose s none
+  | ["e", c] =>
+    match c.toNat? with
+    | some c => doClose s (some (.custom c))
+    | none => (s, ["badop"])
+  | _ => (s, ["badop"])
+
+def isCloseTok (t : String) : Bool := t == "c" || t.startsWith "e:"
+
+def runOps : Bool → Sys → List String → List (List String) → List (List String)
+  | _, _, [], acc => acc.reverse
+  | closed, s, t :: ts, acc =>
+    match doOp closed s t with
+    | (s', out) => runOps (closed || isCloseTok t) s' ts (out :: acc)
+
+def handle (line : String) : String :=
+  match line.splitOn " " with
+  | ["roff", a, b, c, d] =>
+    match a.toNat?, b.toNat?, c.toNat?, d.toNat? with
+    | some blen, some size, some rpos, some wpos =>
+      let (m, o) := roffset blen size rpos wpos; s!"{m} {o}"
+    | _, _, _, _ => "badcase"
+  | ["woff", a, b, c] =>
+    match a.toNat?, b.toNat?, c.toNat? with
+    | some blen, some size, some wpos => let (m, o) := woffset blen size wpos; s!"{m} {o}"
+    | _, _, _ => "badcase"
+  | ["align", a, b] =>
+    match a.toNat?, b.toNat? with
+    | some size, some unit => s!"{align size unit}"
+    | _, _ => "badcase"
+  | "sched" :: backend :: req :: ops =>
+    match req.toNat? with
+    | some req =>
+      let s? : Option Sys :=
+        if backend == "mem" then some (Sys.newMem req)
+        else if backend == "file" then some (Sys.newFile req #[])
+        else none
+      match s? with
+      | some s => " ".intercalate ((runOps false s ops []).map fun toks => " ".intercalate toks)
+      | none => "badcase"
+    | none => "badcase"
+  | _ => "badcase"
+
 end RSVerif.Drive.C18
